@@ -41,7 +41,8 @@ var fragmentNodes = map[string]shape{
 	"Subquery": shTemplate, "BinaryExpr": shTemplate, "IntervalExpr": shTemplate, "ConvertExpr": shTemplate,
 	"ConvertTypeSimple": shTemplate, "ConvertTypeList": shTemplate, "ConvertTypeObject": shTemplate,
 	"WatermarkTrigger": shTemplate, "EndOfStreamTrigger": shTemplate, "DelayTrigger": shTemplate, "CountingTrigger": shTemplate,
-	"Limit": shTemplate,
+	"Limit": shTemplate, "RangeCond": shTemplate, "CaseExpr": shTemplate, "When": shTemplate, "ExistsExpr": shTemplate,
+	"With": shTemplate, "CommonTableExpression": shTemplate, "CommonTableExpressions": shList,
 	"SelectExprs": shList, "TableExprs": shList, "TableValuedFunctionArguments": shList, "Exprs": shList,
 	"GroupBy": shList, "OrderBy": shList, "Triggers": shList,
 	"SQLVal": shCustom, "BoolVal": shTemplate, "UnaryExpr": shCustom, "FuncExpr": shCustom, "Order": shCustom,
@@ -53,7 +54,8 @@ var fragmentConsts = []string{
 	"DistinctStr", "JoinStr", "LeftJoinStr", "RightJoinStr", "OuterJoinStr", "LookupJoinStrategy", "StreamJoinStrategy",
 	"WhereStr", "EqualStr", "LessThanStr", "GreaterThanStr", "LessEqualStr", "GreaterEqualStr", "NotEqualStr", "NullSafeEqualStr",
 	"InStr", "NotInStr", "LikeStr", "NotLikeStr", "IsNullStr", "IsNotNullStr", "IsTrueStr", "IsNotTrueStr", "IsFalseStr", "IsNotFalseStr",
-	"PlusStr", "MinusStr", "MultStr", "DivStr", "UMinusStr", "AscScr", "DescScr",
+	"HavingStr", "BetweenStr", "NotBetweenStr", "RegexpStr", "NotRegexpStr", "LikeRegexpStr", "LikeRegexpCaseInsensitiveStr",
+	"NotLikeRegexpStr", "NotLikeRegexpCaseInsensitiveStr", "PlusStr", "MinusStr", "MultStr", "DivStr", "UMinusStr", "AscScr", "DescScr",
 }
 
 func src(fset *token.FileSet, n ast.Node) string {
@@ -261,6 +263,32 @@ func (g *genCtx) extract(fn *ast.FuncDecl) extracted {
 			if good {
 				ex.pieces = append(ex.pieces, fmt.Sprintf("PIf %s [%s] [%s]", coqString(g.text(ifs.Cond)), strings.Join(body, "; "), strings.Join(els, "; ")))
 				continue
+			}
+		}
+		if rs, ok := st.(*ast.RangeStmt); ok && rs.Tok == token.DEFINE {
+			// for _, item := range node.<F> { buf.Myprintf("…%v…", item) }
+			if sel, ok := rs.X.(*ast.SelectorExpr); ok {
+				if id, ok := sel.X.(*ast.Ident); ok && id.Name == g.recv {
+					if item, ok := rs.Value.(*ast.Ident); ok {
+						inner := &genCtx{fset: g.fset, recv: item.Name}
+						var body []string
+						good := len(rs.Body.List) > 0
+						for _, b := range rs.Body.List {
+							ps, ok := inner.myprintf(b)
+							if !ok {
+								good = false
+								break
+							}
+							for _, p := range ps {
+								body = append(body, strings.Replace(p, `PV "Self"`, `PV "Item"`, 1))
+							}
+						}
+						if good {
+							ex.pieces = append(ex.pieces, fmt.Sprintf("PEach %s [%s]", coqString(sel.Sel.Name), strings.Join(body, "; ")))
+							continue
+						}
+					}
+				}
 			}
 		}
 		return extracted{shape: shCustom}
